@@ -1031,6 +1031,16 @@ func (g *Gen) bitop(st *State, x *ssa.BinOp, a, b Val) Val {
 			return Val{T: r, Kind: "int"}
 		}
 	}
+	if x.Op == token.AND_NOT {
+		// x &^ m for a constant low-bit mask m = 2^k - 1 and non-negative x: x - x mod 2^k
+		if c, ok := x.Y.(*ssa.Const); ok {
+			if m, exact := constant.Int64Val(c.Value); exact && m >= 0 && (m+1)&m == 0 {
+				if lo, _, okr := rangeOf(x.X.Type()); okr && lo == "0" {
+					return Val{T: fmt.Sprintf("(- %s (mod %s %d))", a.T, a.T, m+1), Kind: "int"}
+				}
+			}
+		}
+	}
 	if x.Op == token.OR {
 		// x | c where the low bits of x covered by c are known zero is not derivable here; give bounds only
 	}
